@@ -14,7 +14,9 @@ def _rat(s):
 
 def _s(x):
     import sympy as sp
-    x = sp.nsimplify(sp.sympify(x))
+    x = sp.sympify(x)
+    if not x.is_Rational:
+        x = sp.simplify(x)
     if not x.is_Rational:
         raise ValueError(f"not rational: {x}")
     return f"{x.p}/{x.q}"
